@@ -73,7 +73,8 @@ def cases(tier, seed):
     out = []
     for i, p in enumerate(PIT_PROGS):
         for fold in ((False, True) if GP.has_bn(p) else (False,)):
-            out.append({'fam': 'P', 'prog': p, 'fold_bn': fold, 'tier': tier})
+            for shard in range(len(GRID)):     # the lattice is sharded by the value of its first element (pool parallelism only)
+                out.append({'fam': 'P', 'prog': p, 'fold_bn': fold, 'tier': tier, 'shard': shard})
     for p in SN_PROGS:
         out.append({'fam': 'S', 'prog': p, 'tier': tier})
     for p in MPS_PROGS:
@@ -171,9 +172,12 @@ def _run_P(case, seed, res, add, cur):
 
     # reference for the top element
     searchable = {nm for nm, _ in D.pit_layers(nas)}
+    shard = case.get('shard')
     for si, st in enumerate(states):
         label = {'state': list(st)}
         if only is not None and only.get('state') != list(st):
+            continue
+        if shard is not None and n > 0 and st[0] != shard:
             continue
         cur[0] = label
         res['states'] += 1
@@ -249,7 +253,7 @@ def _run_P(case, seed, res, add, cur):
             res['nontrivial'].append(f'P/{_psig(prog)}/{fold}/{st}')
     # top element == original model
     top = tuple([G - 1] * n)
-    if only is None or only.get('state') == list(top):
+    if (only is None or only.get('state') == list(top)) and shard in (None, G - 1):
         cur[0] = {'state': list(top)}
         if not fold:
             vals = value(top)
@@ -337,7 +341,7 @@ def _run_soft(case, seed, res, add, cur, nas, x, coef_params, specs, fam, temps_
                         add('cost-depends-on-weights-or-data', f'cost-depends-on-weights-or-data/{fam}/{k}',
                             f'{label}: get_cost({k}) changed from {vals[k]} to {again[k]} after re-drawing the weights and a forward on other data')
             # finite differences (soft mode, T >= 1 only)
-            if not hard and T >= 1.0:
+            if not hard and T >= 1.0 and (case.get('tier') == 'thorough' or (si + int(T)) % 3 == 0):
                 delta = 0.05
                 for pi, p in enumerate(coef_params):
                     if not p.requires_grad:
